@@ -208,3 +208,31 @@ Qed.
 (* equality of the untied graphs already contains: same name, same registry, same inputs / outputs / types up to the constants *)
 Lemma untie_eq_registry Cf Cl : untie Cf = untie Cl → c_name Cf = c_name Cl ∧ c_bbs Cf = c_bbs Cl.
 Proof. unfold untie, with_g. intros [= H1 _ H2]. done. Qed.
+
+(* ---- the exhaustive-evaluation oracle decides the functional clause of the property *)
+Lemma endpoints_dom c n : n ∈ endpoints c → n ∈ dom c.
+Proof.
+  unfold endpoints. rewrite elem_of_union, elem_of_outputs, elem_of_of_type.
+  intros [(i & Hi & _)|(i & Hi & _)]; by apply elem_of_dom.
+Qed.
+Theorem same_function_sound Cf Cl : same_function Cf Cl = true → same_function_decided Cf Cl = true →
+  ∀ vf vl, consistent (c_g Cf) vf → consistent (c_g Cl) vl → agrees (free_nodes (c_g Cf)) vf vl →
+    agrees (endpoints (c_g Cf)) vf vl.
+Proof.
+  unfold same_function, same_function_decided. intros H Hd. rewrite Hd in H.
+  apply andb_true_iff in H as [H Hall]. apply andb_true_iff in H as [Hfree Hend].
+  apply bool_decide_eq_true in Hfree. apply bool_decide_eq_true in Hend.
+  repeat (apply andb_true_iff in Hd as [Hd ?]).
+  intros vf vl Hvf Hvl Hag n Hn.
+  destruct (all_vals_complete (elements (free_nodes (c_g Cf))) vf) as (w & Hw & Hwv).
+  rewrite forallb_forall in Hall. specialize (Hall w). rewrite <- elem_of_list_In in Hall. specialize (Hall Hw).
+  apply andb_true_iff in Hall as [Hall Heq]. apply andb_true_iff in Hall as [Hcf Hcl].
+  assert (Hf : agrees (dom (c_g Cf)) vf (evalc (c_g Cf) w)).
+  { apply evalc_unique; [by apply closedb_spec|by apply acyclicb_sound|done|done|].
+    intros m Hm. symmetry. apply Hwv. by apply elem_of_elements. }
+  assert (Hl : agrees (dom (c_g Cl)) vl (evalc (c_g Cl) w)).
+  { apply evalc_unique; [by apply closedb_spec|by apply acyclicb_sound|done|done|].
+    intros m Hm. rewrite <- Hfree in Hm. rewrite <- (Hag m Hm). symmetry. apply Hwv. by apply elem_of_elements. }
+  rewrite (Hf n) by by apply endpoints_dom. rewrite (Hl n) by (apply endpoints_dom; by rewrite <- Hend).
+  rewrite eq_on_spec in Heq. apply Heq. by apply elem_of_elements.
+Qed.
